@@ -328,7 +328,7 @@ def rule_field_coverage(ctx, rep):
     shapes = {
         'len': (['(Vec::len(self.buffer) + self.leading_zeroes)'], None),
         'is_empty': (['(0 == self.leading_zeroes)', 'false'], {'(0 == self.leading_zeroes)': 'Vec::is_empty(self.buffer)', 'false': '!Vec::is_empty(self.buffer)'}),
-        'to_string': (['res'], None),
+        'to_string': (None, None),
     }
     for name, (want_rets, want_facts) in shapes.items():
         x = _x(ctx, '%s::%s' % (DS, name))
@@ -337,14 +337,16 @@ def rule_field_coverage(ctx, rep):
         qq = Q(x)
         rets = qq.return_values()
         got = sorted(v for _b, v in rets)
-        ok = got == sorted(want_rets)
+        ok = want_rets is None or got == sorted(want_rets)
         if ok and want_facts:
             ok = all(want_facts[v] in qq.facts(b) for b, v in rets)
         if ok and name == 'to_string':
-            calls = [d for _b, _n, d, _t in qq.all_calls()]
+            from ..mirx import alpha, untag
+            raw = [x.desc_call(t, 60, frozenset()) for _b, t in x.calls()] + [x.desc_rvalue(rv) for _b, _s, pl, rv in x.assignments() if pl['l'] == 0 and not pl['p']]
+            calls = [untag(c) for c in alpha(raw)]
             ok = calls == ['str::repeat("0", self.leading_zeroes)', 'Vec::as_slice(self.buffer)', 'converts::from_utf8(Vec::as_slice(self.buffer))',
                            'Result::unwrap(converts::from_utf8(Vec::as_slice(self.buffer)))',
-                           'String::push_str(res, Result::unwrap(converts::from_utf8(Vec::as_slice(self.buffer))))']
+                           'String::push_str($1, Result::unwrap(converts::from_utf8(Vec::as_slice(self.buffer))))', '$1']
             got = calls
         rep.check(ok, R, 'shape|DigitString::' + name, 'value is built from the buffer and the zero count as documented',
                   '%s computes %s: leading zeros are not part of the %s as documented' % (name, got, {'len': 'length', 'is_empty': 'emptiness test', 'to_string': 'rendering'}[name]),
